@@ -96,8 +96,10 @@ def gen_cases(tier, seed):
     cases = []
     for k in range(n):
         kind = r.choices(['frac', 'group', 'fock'], [6, 2, 3])[0]
-        g = ExprGen(r, cat, general=0.0, symbols=0.0, hyper=0.0,
-                    exponents=0.25 if kind == 'fock' else 0.0)
+        # Fock (block-)diagonalisation also with general indices (f_pq spans all
+        # blocks: it must not be treated as an off-diagonal block)
+        g = ExprGen(r, cat, general=0.25 if kind == 'fock' else 0.0, symbols=0.0,
+                    hyper=0.0, exponents=0.25 if kind == 'fock' else 0.0)
         cid = f'C13-{tier[0]}{seed}-{k:05d}-{kind}'
         base = {'id': cid, 'kind': kind, 'mseed': r.randrange(1 << 30),
                 'dims': list(r.choice([(2, 2), (2, 3), (3, 2)]))}
